@@ -14,7 +14,7 @@ type VHStore interface {
 	Update(remoteWrite, persist bool, upd any, fp, fd *FilterType) (ok bool) // one update
 }
 
-var vhC11Shapes = []string{"partial-ids", "partial-noid", "partial-selector", "delete-selector", "delete-elements", "delete-selector-elements", "full-replace"}
+var vhC11Shapes = []string{"partial-ids", "partial-noid", "partial-selector", "delete-selector", "delete-elements", "delete-selector-elements", "full-replace", "partial-empty"}
 
 // VHC11: a data set handed out earlier never changes, whatever update follows;
 // a non-persisting or failing update leaves the stored data as it was.
@@ -34,7 +34,7 @@ func VHC11(mk func(function FunctionType) VHStore) {
 	N := verifrt.Param("N", 2)
 	ex := l.New()
 	l.fillList("ex", ex, N, l.Fields)
-	l.assumeInvariant(ex)
+	l.assumeUnique(ex) // stored by a full replacement: any order
 	if l.WriteCheck != "" && remoteWrite {
 		// keep the write acceptable or not: both are explored, the flag is symbolic
 	}
@@ -95,6 +95,8 @@ func VHC11(mk func(function FunctionType) VHStore) {
 		l.SetElem(fd, elem)
 	case "full-replace":
 		l.fillList("upd", upd, N, l.Fields)
+	case "partial-empty":
+		fp = vhPartial() // a partial update that carries no item
 	}
 
 	snap := store.Copy()
